@@ -48,6 +48,9 @@ class VirtualTime:
         ident = threading.get_ident()
         if ident == self._main:
             return  # the harness thread itself never blocks on virtual sleeps
+        if self._shutdown:
+            _real_time.sleep(0.002)  # (a loop waiting for its run-flag must not hog the interpreter lock meanwhile)
+            return
         with self._cond:
             if self._shutdown:
                 return
